@@ -552,6 +552,41 @@ func scheduleScenarios(c *hx.Ctx) []*scn {
 		out = append(out, s)
 	}
 
+	// T: ConnectTimeout bounds the wait for the CONNACK whatever the dial took.  The Dialer takes d (0, just below, equal
+	// to, just above, well above ConnectTimeout), the broker reads the CONNECT and stays silent with the connection open:
+	// the attempt must be given up about ConnectTimeout after the CONNECT went out, the next attempt must follow, and a
+	// Stop issued meanwhile must return.  (A "remaining time" that has run out must not turn into "no deadline".)
+	const ct = 80 * time.Millisecond
+	for _, d := range []time.Duration{0, ct - 10*time.Millisecond, ct, ct + 10*time.Millisecond, 5 * ct / 2} {
+		for _, stopDuring := range []bool{false, true} {
+			d, stopDuring := d, stopDuring
+			s := mk(fmt.Sprintf("t-slow-dial-%dms-silent-broker-stop%v", d/time.Millisecond, stopDuring), func(s *scn) {
+				s.direct("reconnect", "")
+				s.via(func() { s.cmd(pub("t", "queued-before-start", 1)) })
+				s.start()
+				s.waitCount("sendconnect", 1)
+				t0 := time.Now()
+				if stopDuring {
+					// Stop while the supervisor waits for the CONNACK: it returns once that wait is over
+					s.via(func() { s.stop(false) })
+					if el := time.Since(t0); el > ct+2*time.Second {
+						s.direct("reconnect", fmt.Sprintf("Stop-took-%v-while-the-supervisor-waited-for-a-CONNACK(ConnectTimeout-%v,dial-took-%v)", el, ct, d))
+					}
+					s.via(func() { s.start() })
+				} else if !s.waitCountD("connfail", 1, ct+2*time.Second, false) {
+					s.direct("reconnect", fmt.Sprintf("attempt-not-given-up-%v-after-CONNECT(ConnectTimeout-%v,dial-took-%v)", ct+2*time.Second, ct, d))
+				}
+				if !s.waitCountD("online", 1, 3*time.Second, false) {
+					s.direct("reconnect", fmt.Sprintf("no-further-connection-attempt-came-online(ConnectTimeout-%v,dial-took-%v)", ct, d))
+				}
+			})
+			s.ctmo = ct
+			s.clean = d%2 == 0
+			s.plans = []connPlan{{dialDelay: d, connack: "none"}, {dialDelay: d}}
+			out = append(out, s)
+		}
+	}
+
 	// R: retransmissions first.  Session kept; a QoS 1 publish stays unacknowledged, the connection is lost, a second
 	// publish is queued while offline; on the reconnect (CONNACK sp=1) the client's read of the stored packets is held
 	// until the dispatcher has had every chance to send the queued command.  On the wire the first PUBLISH of the new
